@@ -140,7 +140,9 @@ def effects(ctx: Ctx, fi: FuncInfo, names: Optional[Iterable[str]] = None,
             out.append(Eff("yield", "from" if isinstance(
                 n.value, ast.YieldFrom) else "", "", tuple(rs),
                 guards_at(n, side), n))
-        elif isinstance(n, (ast.Assign, ast.AugAssign)):
+        elif isinstance(n, (ast.Assign, ast.AugAssign, ast.AnnAssign)):
+            if isinstance(n, ast.AnnAssign) and n.value is None:
+                continue
             tgt = n.targets[0] if isinstance(n, ast.Assign) else n.target
             if isinstance(tgt, (ast.Attribute, ast.Subscript)):
                 rs, side = roles([tgt, n.value], n)
@@ -168,6 +170,14 @@ def expect(rep: Report, rule: str, fi: FuncInfo, effs: list[Eff], what: str,
     if select is not None:
         hits = [e for e in hits if select(e)]
     must, may = list(must), list(may)
+    if len(hits) > 1:
+        # several effects of that shape: the obligation names the one that
+        # runs under exactly these conditions
+        exact = [e for e in hits if all(m in e.guards for m in must)
+                 and (any_guard or all(g in must or g in may
+                                       for g in e.guards))]
+        if exact:
+            hits = exact
     ok = len(hits) == 1
     r = f"{recv}." if recv else ""
     shown = f"{r}{name}({', '.join(args)})" if kind == "call" else \
@@ -221,3 +231,19 @@ def before(ctx: Ctx, fi: FuncInfo, a: ast.AST, b: ast.AST) -> bool:
     if na is None or nb is None or na == nb:
         return False
     return cfg.dominates(na, nb) and not cfg.dominates(nb, na)
+
+
+def check_table(rep: Report, ctx: Ctx, rule: str, table: dict,
+                funcs: Iterable[str],
+                abbr: Callable[[str], str] = lambda s: s) -> None:
+    """table: function spec -> [(what, kind, name, recv, args, must, may,
+    why)]; ``may`` == "*" accepts any further condition."""
+    for fn in funcs:
+        fi = ctx.func(fn)
+        effs = effects(ctx, fi)
+        for what, kind, name, recv, args, must, may, why in table[fn]:
+            expect(rep, rule, fi, effs, f"{fi.name}: {what}", kind=kind,
+                   name=name, recv=abbr(recv),
+                   args=tuple(abbr(a) for a in args), must=must,
+                   may=[] if may == "*" else may, any_guard=may == "*",
+                   why=why)
